@@ -33,7 +33,8 @@
 
    Arrays: CallErrMat(o, layout, axis) = count_bit_errors of two 2 x 3 index arrays lying in memory in row-major
    ("C") or column-major ("F", e.g. a transposed view) order, summed along an axis; `AxisLaw`: the counts are taken
-   position by position of the LOGICAL index whatever the layout (Dev.CountsInMemoryOrder: read in memory order,
+   position by position of the LOGICAL index whatever the layout, also when the second operand is a row vector
+   broadcast over the first (bc = "row"); the sum over an empty array is 0 (Dev.CountsInMemoryOrder: read in memory order,
    written in row-major order).
 
    Modes:  "exh"   every v in 0 .. 2^W - 1  (W <= 12): calls b2g(v), g2b(v)
@@ -113,17 +114,19 @@ PairDomain ==
 Vec(n) == IF Mode = "basis" THEN RandVec(n) ELSE OfInt(n % (2 ^ W))
 MatU(o) == [i \in 1..2 |-> [j \in 1..3 |-> Vec(o + 3 * (i - 1) + j)]]
 MatV(o) == [i \in 1..2 |-> [j \in 1..3 |-> Vec(o + 11 + 5 * (i - 1) + 2 * j)]]
-CountAt(o, i, j) == Ham(MatU(o)[i][j], MatV(o)[i][j])
+\* bc = "full": second operand is the 2 x 3 array MatV;  bc = "row": it is the single row MatV[1], broadcast over the rows
+CountAtB(o, bc, i, j) == Ham(MatU(o)[i][j], MatV(o)[IF bc = "row" THEN 1 ELSE i][j])
+CountAt(o, i, j) == CountAtB(o, "full", i, j)
 AxisSums(cnt, axis) ==
   CASE axis = -1 -> << cnt[1][1] + cnt[1][2] + cnt[1][3] + cnt[2][1] + cnt[2][2] + cnt[2][3] >>
     [] axis = 0  -> [j \in 1..3 |-> cnt[1][j] + cnt[2][j]]
     [] axis = 1  -> [i \in 1..2 |-> cnt[i][1] + cnt[i][2] + cnt[i][3]]
 \* as-is under Dev.CountsInMemoryOrder: the elements are READ in memory order but the counts are WRITTEN in row-major
 \* order - for a column-major operand the count stored at row-major position k belongs to the k-th element in memory
-CodeCount(o, layout, i, j) ==
+CodeCount(o, bc, layout, i, j) ==
   IF Dev.CountsInMemoryOrder /\ layout = "F"
-  THEN LET k == 3 * (i - 1) + (j - 1) IN CountAt(o, (k % 2) + 1, (k \div 2) + 1)
-  ELSE CountAt(o, i, j)
+  THEN LET k == 3 * (i - 1) + (j - 1) IN CountAtB(o, bc, (k % 2) + 1, (k \div 2) + 1)
+  ELSE CountAtB(o, bc, i, j)
 MatOffsets == IF Mode = "exh" THEN {} ELSE 0..2
 
 (* ------------------------------------- machine ------------------------------------------ *)
@@ -150,10 +153,10 @@ CallErr(u, v) == /\ pc = 0
                  /\ call' = [op |-> "err", u |-> u, v |-> v]
                  /\ ret' = ErrCode(u, v) /\ pc' = -1 /\ UNCHANGED t
 
-CallErrMat(o, layout, axis) ==
+CallErrMat(o, bc, layout, axis) ==
   /\ pc = 0
-  /\ call' = [op |-> "errmat", u |-> Zero, v |-> Zero, o |-> o, layout |-> layout, axis |-> axis]
-  /\ ret' = AxisSums([i \in 1..2 |-> [j \in 1..3 |-> CodeCount(o, layout, i, j)]], axis)
+  /\ call' = [op |-> "errmat", u |-> Zero, v |-> Zero, o |-> o, bc |-> bc, layout |-> layout, axis |-> axis]
+  /\ ret' = AxisSums([i \in 1..2 |-> [j \in 1..3 |-> CodeCount(o, bc, layout, i, j)]], axis)
   /\ pc' = -1 /\ UNCHANGED t
 
 \* the guard pc = 0 stands outside the quantifiers so that TLC does not enumerate the domain in
@@ -161,7 +164,8 @@ CallErrMat(o, layout, axis) ==
 Calls == /\ pc = 0
          /\ \/ \E v \in Domain : CallB2G(v) \/ CallG2B(v)
             \/ \E p \in PairDomain : CallErr(p[1], p[2])
-            \/ \E o \in MatOffsets : \E layout \in {"C", "F"} : \E axis \in {-1, 0, 1} : CallErrMat(o, layout, axis)
+            \/ \E o \in MatOffsets : \E bc \in {"full", "row"} : \E layout \in {"C", "F"} : \E axis \in {-1, 0, 1} :
+                  CallErrMat(o, bc, layout, axis)
 Next == Calls \/ Step \/ Return
 
 (* ------------------------------------ properties ---------------------------------------- *)
@@ -193,7 +197,7 @@ HammingLaw == Done("err") => ret = Ham(call.u, call.v)
 
 \* arrays: the counts are taken position by position (logical index) and summed along the axis, whatever the memory layout
 AxisLaw == Done("errmat") =>
-  ret = AxisSums([i \in 1..2 |-> [j \in 1..3 |-> CountAt(call.o, i, j)]], call.axis)
+  ret = AxisSums([i \in 1..2 |-> [j \in 1..3 |-> CountAtB(call.o, call.bc, i, j)]], call.axis)
 
 \* the count does not depend on the order of the two operands
 SymmetryLaw == Done("err") => ret = ErrCode(call.v, call.u)
@@ -218,7 +222,7 @@ Enc(x) == IF W <= 30 THEN ToInt(x) ELSE x
 EncMat(m) == [i \in 1..2 |-> [j \in 1..3 |-> Enc(m[i][j])]]
 Emit == IF pc' = -1 /\ call'.op = "errmat"
         THEN EmitCase([op |-> "errmat", w |-> W, u |-> EncMat(MatU(call'.o)), v |-> EncMat(MatV(call'.o)),
-                       layout |-> call'.layout, axis |-> call'.axis, ret |-> ret'])
+                       bc |-> call'.bc, layout |-> call'.layout, axis |-> call'.axis, ret |-> ret'])
         ELSE IF pc' = -1
         THEN EmitCase([op |-> call'.op, w |-> W, u |-> Enc(call'.u), v |-> Enc(call'.v),
                        ret |-> IF call'.op = "err" THEN ret' ELSE Enc(ret')])
